@@ -241,6 +241,8 @@ class RefRT(object):
         l = leaf.spec
         if kind == "const":
             leaf.outcome = ("val", lang._freeze(l[1]))
+        elif kind == "constexc":
+            leaf.outcome = ("val", UserErr(("value", l[1])))
         elif kind == "err":
             tag = ("err", l[1], leaf.inst)
             leaf.outcome = (
@@ -340,6 +342,21 @@ class RefRT(object):
         elif type(struct) is dict:
             for s in struct.values():
                 self._collect(s, out)
+
+    def sync_shared(self, fr, st):
+        sid = st[1]
+        if sid in self.shared:
+            leaf = self.shared[sid]
+        else:
+            leaf = RefLeaf("shared", ["shared", sid], 0)
+            leaf.obj = leaf
+            leaf.inst = (fr.path, "ss", sid)
+            leaf.frame = Frame(self.prog["shared"][sid], ("S", sid), fr)
+            self.shared[sid] = leaf
+        self.resolve(leaf)
+        if leaf.outcome[0] == "val":
+            return leaf.outcome[1]
+        raise leaf.outcome[1]
 
     def cancel_batch(self, fr, st):
         pass  # which requests it hits depends on the schedule: outcomes come from the observed table
